@@ -174,7 +174,7 @@ def prop_class(name):
 def run_harness(h, opts):
     """Runs goto-cc/goto-instrument/cbmc for one harness. Returns a result dict."""
     name = h["pretty_name"].split("::")[-1]
-    res = dict(harness=name, pretty=h["pretty_name"], unwind=h["attributes"].get("unwind_value"),
+    res = dict(harness=name, pretty=h["pretty_name"], src=h.get("original_file"), unwind=h["attributes"].get("unwind_value"),
                stubs=[(s["original"], s["replacement"]) for s in h["attributes"].get("stubs", [])],
                status="error", checks=0, failed=[], covers_total=0, covers_sat=0, covers_unsat=[],
                unwind_failed=[], unsupported_failed=[], symex_s=None, solver_s=0.0, wall_s=0.0,
@@ -362,15 +362,28 @@ PLAYBACK_RUSTFLAGS = (
 ).format(home=KANI_HOME)
 
 
-def playback_generate(dst, cfg, harness_name, timeout):
-    """Re-run Kani on one failing harness asking for the solver assignment as an in-place unit test."""
+def playback_generate(dst, cfg, harness_name, timeout, src_rel=None):
+    """Re-run Kani on one failing harness asking for the solver assignment as a unit test (printed), and append the
+    test to the END of the harness's source file. (Kani's own in-place insertion puts the test inside the macro body
+    when the harness function is generated by a macro_rules! macro, which then expands it once per invocation.)"""
     cmd = ["cargo", "kani", "--harness", harness_name, "--exact",
-           "-Z", "concrete-playback", "--concrete-playback=inplace"] + KANI_BUILD_FLAGS
+           "-Z", "concrete-playback", "--concrete-playback=print"] + KANI_BUILD_FLAGS
     cmd += ["--cbmc-args", "--max-field-sensitivity-array-size", "4096"]
     if cfg.get("features"):
         cmd[2:2] = ["--features", ",".join(cfg["features"])]
     rc, out = sh(cmd, cwd=dst, timeout=timeout)
-    tests = re.findall(r"- (kani_concrete_playback_\w+)", out)
+    blocks = re.findall(r"```\n(.*?)```", out, re.S)
+    tests, code = [], []
+    for b in blocks:
+        m = re.search(r"fn (kani_concrete_playback_\w+)\(\)", b)
+        if m and m.group(1) not in tests:
+            tests.append(m.group(1))
+            code.append(b)
+    if tests and src_rel:
+        with open(os.path.join(dst, src_rel), "a") as f:
+            f.write("\n// ---- concrete playback tests generated from solver counterexamples ----\n")
+            for c in code:
+                f.write(c + "\n")
     return tests, out
 
 
@@ -546,7 +559,7 @@ def do_check(pid, tier, seed, only=None, keep=False, jobs=None, no_replay=False)
             lines.append("KNOWN-FINDING: property=%s %s [harness %s: %s at %s]" % (
                 pid, k.get("what", ""), hn, ent["description"][:100], ent["where"]))
         # ---- replay every unknown failure natively before reporting
-        replay_dir_root = os.path.join(VERIF, "replays", pid)
+        replay_dir_root = os.path.join(os.environ.get("VERIF_REPLAY_ROOT") or os.path.join(VERIF, "replays"), pid)
         reproduced = []
         if violations:
             shutil.rmtree(replay_dir_root, ignore_errors=True)
@@ -566,7 +579,7 @@ def do_check(pid, tier, seed, only=None, keep=False, jobs=None, no_replay=False)
                 r["detail"] += "failed in CBMC; replay budget (%d harnesses) used by other failing harnesses of this run" % MAX_REPLAY
                 continue
             o = harness_opts(cfg, hn, tier)
-            tests, pout = playback_generate(dst, cfg, r["pretty"], timeout=max(2 * o.get("timeout", 600), 600))
+            tests, pout = playback_generate(dst, cfg, r["pretty"], timeout=max(2 * o.get("timeout", 600), 600), src_rel=r.get("src"))
             if not tests:
                 log("[%s] %s: no concrete playback test generated\n%s" % (pid, hn, pout[-1500:]))
                 r["status"] = "unreplayed"
@@ -683,8 +696,9 @@ def do_check(pid, tier, seed, only=None, keep=False, jobs=None, no_replay=False)
 
 def write_evidence(pid, ev, t_start):
     ev["wall_s"] = round(time.time() - t_start, 1)
-    os.makedirs(os.path.join(VERIF, "evidence"), exist_ok=True)
-    p = os.path.join(VERIF, "evidence", pid + ".json")
+    evdir = os.environ.get("VERIF_EVIDENCE_DIR") or os.path.join(VERIF, "evidence")
+    os.makedirs(evdir, exist_ok=True)
+    p = os.path.join(evdir, pid + ".json")
     with open(p + ".tmp", "w") as f:
         json.dump(ev, f, indent=1)
     os.replace(p + ".tmp", p)
